@@ -110,9 +110,19 @@ func (u *union) Parse(ctx *parseContext, parent reflect.Value) (out []reflect.Va
 		return nil, err
 	}
 	for i := range vals {
-		vals[i] = maybeRef(u.members[i], vals[i]).Convert(u.typ)
+		vals[i] = maybeRef(u.member(vals[i].Type()), vals[i]).Convert(u.typ)
 	}
 	return vals, nil
+}
+
+// member returns the declared member type (possibly a pointer) that a parsed value of type t belongs to.
+func (u *union) member(t reflect.Type) reflect.Type {
+	for _, m := range u.members {
+		if m == t || (m.Kind() == reflect.Ptr && m.Elem() == t) {
+			return m
+		}
+	}
+	return t
 }
 
 // @@
